@@ -9,7 +9,7 @@
    what the diff entry od (if any) says about the target entry ot (if any) — Ok None = absent
    afterwards, Err = refused (entry_apply, unfolded by C04_entry_table).
    cfind / cdfind … look a key up in a map (a list with pairwise distinct keys). *)
-From FB Require Import C04.Model C04.Text C04.Theory C04.Theory2 C04.TextTheory C04.TextTheory2.
+From FB Require Import C04.Model C04.Text C04.Theory C04.Theory2 C04.TextTheory C04.TextTheory2 C04.TextTheory3.
 
 (* ---------------- apply_diff_option: the complete table ---------------- *)
 Theorem C04_option_ok_iff : forall (d : action str) (t r : option str),
@@ -195,7 +195,33 @@ Theorem C04_apply_norm : forall d t nsname r,
 Proof. exact apply_norm. Qed.
 Print Assumptions C04_apply_norm.
 
+(* the diff of two textual mapping sets (valid names without TAB/LF/CR, indices within usize, same
+   mappings-level comment, no empty comment) is a textual diff that mentions no empty string *)
+Theorem C04_diff_textual : forall A B d,
+  wf A = true -> wf B = true -> textual_mappings A = true -> textual_mappings B = true ->
+  f4_class A B = false -> ms_doc A = ms_doc B ->
+  diff A B = Ok d -> textual_diff d = true /\ nonempty_diff d = true.
+Proof. exact diff_textual. Qed.
+Print Assumptions C04_diff_textual.
+
+(* the inverse law through print / read (known findings F3, F4) *)
+Theorem C04_text_inverse_partial : forall A B,
+  text_hyps A B -> f3_class A B = false -> f4_class A B = false -> text_inverse_law A B.
+Proof. exact text_inverse_partial. Qed.
+Print Assumptions C04_text_inverse_partial.
+
+Theorem C04_text_inverse_refuted :
+  exists A B, text_hyps A B /\ f3_class A B = false /\ f4_class A B = true /\ ~ text_inverse_law A B.
+Proof. exact text_inverse_refuted. Qed.
+Print Assumptions C04_text_inverse_refuted.
+
 (* non-vacuity *)
+Theorem C04_text_examples :
+  text_hyps ex_A ex_B /\ f3_class ex_A ex_B = false /\ f4_class ex_A ex_B = false
+  /\ exists d, diff ex_A ex_B = Ok d /\ read (print d) = Ok (norm d) /\ norm d <> d.
+Proof. exact text_nonvacuous. Qed.
+Print Assumptions C04_text_examples.
+
 Theorem C04_examples :
   inverse_hyps ex_A ex_B /\ f3_class ex_A ex_B = false
   /\ exists d, diff ex_A ex_B = Ok d /\ wf_diff d = true /\ length (d_classes d) = 4%nat.
